@@ -267,7 +267,20 @@ def check_cache(ctx, sm, facts):
                     v = e.node.value
             conds = [(norm(e.node), e.val) for e in evs if e.kind == 'branch']
             vals.add((norm(v) if v is not None else None, tuple(conds)))
-        bad = [x for x in vals if x[0] is None or (x[0] != '[]' and not any('is None' in c and not val for c, val in x[1]))]
+        def fresh_or_supplied(x):
+            txt, conds = x
+            if txt is None:
+                return False
+            if txt == '[]':
+                return True
+            t = txt.replace('(', '').replace(')', '')
+            # `[] if createdStructures is None else createdStructures` (either orientation)
+            if t.startswith('[] if ') and ' is None else ' in t:
+                return True
+            if ' if ' in t and ' is not None else []' in t:
+                return True
+            return any('is None' in c and not val for c, val in conds)
+        bad = [x for x in vals if not fresh_or_supplied(x)]
         if bad:
             ctx.violation('C19.c', 'fresh-module-list:%s' % en, 'the list of already-emitted modules is not a fresh list for a request that supplies none: %s' % sorted(vals, key=str)[:2],
                           '%s:VerilogGenerator.%s' % (RTL, en), witness=dict(history='call %s() twice: the second result is missing modules' % en))
